@@ -4,6 +4,7 @@ import NbioVerif.Lemmas.C10Close
 import NbioVerif.Lemmas.C10Heap
 import NbioVerif.Lemmas.C10Client
 import NbioVerif.Lemmas.C10Pool
+import NbioVerif.Lemmas.C10Refine
 import NbioVerif.Properties.C05
 /-! # C10 — HTTP exchanges end to end: one answer per request, in order, isolated
 
@@ -219,6 +220,83 @@ theorem c10_queue_field_is_c05 (as : List ExecQ.Act) :
   obtain ⟨_, h1, _⟩ := ExecQ.c05_one_at_a_time .conn as
   obtain ⟨h2, h3, _⟩ := ExecQ.c05_fifo_exactly_once .conn as
   exact ⟨h1, h2, h3⟩
+
+theorem startsOf_serial (l : List Nat) : startsOf (ExecQ.serial l) = l := by
+  induction l with
+  | nil => rfl
+  | cons j r ih => simp [ExecQ.serial, startsOf, ih]
+
+/-- **The queue part of `Pipeline` refines the `Conn.Execute` job queue** (non-blocking modes, where
+    `parser.Execute` is `nbio.Conn.Execute`).  For EVERY action sequence, `execTrace` — the translation of the
+    enabled `Pipeline` actions into the `ExecQ` actions they stand for (`parse` ↦ `submit` [+ `spawn` for the head
+    job], `start` ↦ `start`, `finish` ↦ `finish` [, `close`], `next`, `extClose` ↦ `close`, `write`/`flush` ↦ nothing)
+    — is a run of `ExecQ` (the model the job-queue family ties to `conn.go` with hjobq) that ends in a state related
+    to the `Pipeline` state: same closed flag, no index panic, the accepted jobs are the finished ones followed by
+    `queue`, `fin` counts the finished ones, `handled` is the list of `job()` entries of the `ExecQ` log, and the job
+    running in `ExecQ` is the head of `queue` exactly while `cur` is set.  So `Pipeline.step`'s treatment of `queue`
+    is no longer only *written against* C05's specification: it is simulated step by step by `ExecQ.step`, and the
+    last two conjuncts are C05's theorems (`c05_one_at_a_time`, `c05_fifo_exactly_once`) transported along the
+    simulation — handlers are entered one at a time, in acceptance order, each once.
+    Not covered: the blocking modes (`cfg.sync`, where `Execute` runs the job inline and no `ExecQ` exists), and the
+    other two cited components (parser, response writer). -/
+theorem c10_queue_refines_execq (cfg : Cfg α) (hsync : cfg.sync = false) (acts : List Act) :
+    let s := run cfg init acts
+    let e := ExecQ.run .conn ExecQ.init (execTrace cfg init acts)
+    e.closed = s.closed ∧ e.crash = false ∧ e.done ++ s.queue = e.acc ∧ e.done.length = s.fin ∧
+      startsOf e.log = s.handled ∧
+      ExecQ.runningJobs e = (if s.cur.isSome then s.queue.take 1 else []) ∧
+      s.handled = e.done ++ ExecQ.runningJobs e ∧ (ExecQ.runningJobs e).length ≤ 1 ∧
+      e.done <+: e.acc ∧ (e.acc.Nodup → s.handled.Nodup) := by
+  intro s e
+  have hr : Rel s e := run_sim cfg hsync acts init ExecQ.init rel_init
+  obtain ⟨hcl, hcr, hacc, hfin, hst, hsh⟩ := hr
+  have hrun : ExecQ.runningJobs e = (if s.cur.isSome then s.queue.take 1 else []) := by
+    rcases hsh with ⟨hd, _, _, hcur⟩ | ⟨x, hd, _, _, hq, hph⟩
+    · simp [ExecQ.runningJobs, hd, hcur]
+    · rw [ExecQ.runningJobs_one e x hd]
+      rcases hph with ⟨hp, hcur⟩ | ⟨hp, hcur⟩
+      · simp [hp, hcur]
+      · simp [hp, hcur, hq]
+  obtain ⟨_, h1, cur, hlog, hcurE⟩ := ExecQ.c05_one_at_a_time .conn (execTrace cfg init acts)
+  obtain ⟨hpre, _, hnd⟩ := ExecQ.c05_fifo_exactly_once .conn (execTrace cfg init acts)
+  have hlog : e.log = ExecQ.serial e.done ++ cur := hlog
+  have hhand : s.handled = e.done ++ ExecQ.runningJobs e := by
+    rw [← hst, hlog, startsOf_append, startsOf_serial]
+    rcases hcurE with h0 | ⟨j, hj, hrj⟩
+    · -- nothing running according to the log: then nothing is running
+      rw [h0]
+      have : ExecQ.runningJobs e = [] := by
+        -- the log ends with a finished job, so no drainer is inside job()
+        rcases hsh with ⟨hd, _, _, _⟩ | ⟨x, hd, _, _, _, hph⟩
+        · simp [ExecQ.runningJobs, hd]
+        · rw [ExecQ.runningJobs_one e x hd]
+          rcases hph with ⟨hp, _⟩ | ⟨hp, _⟩
+          · simp [hp]
+          · -- running drainer: its start is the last log entry, contradiction with cur = []
+            exfalso
+            have hinv := ExecQ.inv_reach .conn (execTrace cfg init acts)
+            rcases hinv.shape with ⟨hd0, _⟩ | ⟨y, hy, di⟩
+            · rw [hd0] at hd; cases hd
+            · rw [hd] at hy; cases hy
+              obtain ⟨p, _, _, _, hl'⟩ := di.runs hp
+              have hl0 : e.log = ExecQ.serial e.done := by
+                have := hlog; rw [h0, List.append_nil] at this; exact this
+              rw [hl0] at hl'
+              have := congrArg List.length hl'
+              change (ExecQ.serial e.done).length = (ExecQ.serial e.done ++ [ExecQ.Ev.s x.job]).length at this
+              simp at this
+      rw [this]; simp [startsOf]
+    · have hrj : ExecQ.runningJobs e = [j] := hrj
+      rw [hj, hrj]; simp [startsOf]
+  refine ⟨hcl, hcr, hacc, hfin, hst, hrun, hhand, h1, hpre, ?_⟩
+  intro hn
+  rw [hhand]
+  have hpfx : e.done ++ ExecQ.runningJobs e <+: e.acc := by
+    rw [hrun, ← hacc]
+    split
+    · exact List.prefix_append_right_inj _ |>.mpr (List.take_prefix 1 s.queue)
+    · simp
+  exact (List.Sublist.nodup hpfx.sublist hn)
 
 /-- **Nothing is written after the close** (whoever closed): from a closed state on, no step changes
     the wire, and the connection stays closed. -/
